@@ -6,6 +6,8 @@ import Stef.Driver.Core
 import Stef.Driver.Bits
 import Stef.Driver.Chunk
 import Stef.Driver.Spec
+import Stef.Driver.Codec
+import Stef.Driver.Limiter
 
 open Stef.Driver
 
@@ -13,8 +15,12 @@ def mkHandlers : IO (List (List String × Handler)) := do
   let bits ← mkHandler ({} : Bits.St) Bits.step
   let chunk ← mkHandler ({} : Chunk.St) Chunk.step
   let spec ← mkHandler ({} : SpecD.St) SpecD.step
+  let codec ← mkHandler ({} : CodecD.St) CodecD.step
+  let limiter ← mkHandler ({} : LimiterD.St) LimiterD.step
   pure [
+    (["sl"], limiter),
     (["sd"], spec),
+    (["ce", "cx"], codec),
     (["bw", "br"], bits),
     (["ca", "cw"], chunk)
   ]
